@@ -3,7 +3,7 @@
    knows each opcode's intrinsic kind and ABI) into the canonical form below; the model's
    LowerStmt stream is brought to the same form by a small register assignment (same pop/push
    discipline as assign_registers) and by resolving labels to instruction indices. *)
-From TV Require Import Base.I32 Base.F32 Model.Ops Model.Expr Model.Lower.
+From TV Require Import Base.I32 Base.F32 Model.Ops Model.Expr Model.Lower Model.LowerSem Model.LowerProg Gen.OpTable.
 Open Scope Z_scope.
 
 Inductive carg := CReg (t : ty) (r : Z) | CImm (v : value) | CIdx (n : nat) | CTime (t : Z).
@@ -27,7 +27,14 @@ Record config := mkcfg {
   c_temp_base : nat;              (* first DefId used for temporaries / gensyms *)
 }.
 
-Inductive c02case := KLower (cfg : config) (stmts : list (Z * Z * sstmt)) (r : lres).
+(* final state of an AstVm run: time, real time, instruction log (oldest first), observed registers *)
+Record rres := mkrr { rr_time : Z; rr_real : Z; rr_log : list (Z * Z * list value); rr_regs : list (Z * value) }.
+Inductive runres := ROk (r : rres) | RFail | RSkip.
+
+Inductive c02case :=
+| KLower (cfg : config) (stmts : list (Z * Z * sstmt)) (r : lres)
+(* AstVm on the source body and on the raised compiled code, per (difficulty, initial registers) *)
+| KRun (cfg : config) (stmts : list (Z * Z * sstmt)) (runs : list (nat * list (Z * value) * runres * runres)).
 
 (* ---- decidable equalities ---- *)
 Definition ty_eq := ty_eqb.
@@ -88,13 +95,6 @@ Fixpoint zassoc_ty (l : list (Z * ty)) (k : Z) : ty :=
   match l with [] => TInt | (k', t) :: r => if k =? k' then t else zassoc_ty r k end.
 Definition nassoc_ty (l : list (nat * ty)) (k : nat) : ty :=
   match assoc l k with Some t => t | None => TInt end.
-
-Definition label_eqb (a b : label) : bool :=
-  match a, b with
-  | LUser x, LUser y => Nat.eqb x y
-  | LGen k1 n1, LGen k2 n2 => Nat.eqb k1 k2 && Nat.eqb n1 n2
-  | _, _ => false
-  end.
 
 (* registers mentioned at the top level of instruction arguments (get_explicitly_used_regs) *)
 Definition targ_reg (a : targ) : list Z := match a with TVar _ (VReg r) => [r] | _ => [] end.
@@ -222,6 +222,48 @@ Definition model_lower (cfg : config) (stmts : list (Z * Z * sstmt)) : outcome (
   | OutOfFuel => OutOfFuel
   end.
 
+(* ---- runs: Model.LowerProg against AstVm ---- *)
+Definition libm0 (_ : unop) (_ : Z) : Z := 0.
+Definition RUN_FUEL : nat := 64.
+
+Fixpoint zassoc_v (l : list (Z * value)) (k : Z) : option value :=
+  match l with [] => None | (k', v) :: r => if k =? k' then Some v else zassoc_v r k end.
+
+Definition init_pst (cfg : config) (init : list (Z * value)) : pst :=
+  mkpst (mkmem (fun r => match zassoc_v init r with Some v => v | None => default_of (zassoc_ty (c_rty cfg) r) end)
+               (fun d => default_of (nassoc_ty (c_lty cfg) d))) 0 0 [].
+
+Definition log_eqb (a b : Z * Z * list value) : bool :=
+  let '(t1, o1, v1) := a in let '(t2, o2, v2) := b in (t1 =? t2) && (o1 =? o2) && list_eqb value_eqb v1 v2.
+
+Definition run_agree (o : outcome pst) (r : runres) : bool :=
+  match r with
+  | RSkip => true
+  | RFail => match o with Ok _ => false | _ => true end
+  | ROk x =>
+      match o with
+      | Ok st =>
+          (p_time st =? rr_time x) && (p_real st =? rr_real x) && list_eqb log_eqb (rev (p_log st)) (rr_log x)
+          && forallb (fun rv => value_eqb (regs (p_mem st) (fst rv)) (snd rv)) (rr_regs x)
+      | _ => false
+      end
+  end.
+
+Definition model_run (cfg : config) (stmts : list (Z * Z * sstmt)) (run : nat * list (Z * value) * runres * runres) : bool :=
+  let '(d, init, src, tgt) := run in
+  let rty := zassoc_ty (c_rty cfg) in
+  let lty := nassoc_ty (c_lty cfg) in
+  let st0 := init_pst cfg init in
+  run_agree (sprog gen_optable libm0 rty lty d (Some d) false RUN_FUEL stmts Exec st0) src
+  && match tgt with
+     | RSkip => true
+     | _ =>
+         match lower_all cfg stmts (mklst (c_temp_base cfg) []) with
+         | Ok (code, _) => run_agree (wprog gen_optable libm0 lty (Some d) RUN_FUEL code Exec st0 None) tgt
+         | _ => false
+         end
+     end.
+
 Definition model_of (c : c02case) : bool :=
   match c with
   | KLower cfg stmts r =>
@@ -231,6 +273,7 @@ Definition model_of (c : c02case) : bool :=
       | Panic _, LPanic => true
       | _, _ => false
       end
+  | KRun cfg stmts runs => forallb (model_run cfg stmts) runs
   end.
 
 Fixpoint mismatches (n : N) (l : list c02case) : list N :=
